@@ -280,6 +280,9 @@ func (s *Scan) NewResponse() proto.Message {
 func (s *Scan) DeserializeCellBlocks(m proto.Message, b []byte) (uint32, error) {
 	scanResp := m.(*pb.ScanResponse)
 	partials := scanResp.GetPartialFlagPerResult()
+	if l := len(scanResp.GetCellsPerResult()); l != len(partials) {
+		return 0, fmt.Errorf("got %d cell counts, but %d partial flags", l, len(partials))
+	}
 	scanResp.Results = make([]*pb.Result, len(partials))
 	var readLen uint32
 	for i, numCells := range scanResp.GetCellsPerResult() {
